@@ -325,6 +325,10 @@ class AppendSampler(PointSampler):
         samples_a = self.sampler_a.sample_points(params, device=device)
         samples_b = self.sampler_b.sample_points(params, device=device)
         self.set_length(len(samples_a))
+        if not params.isempty:
+            # both samples carry the (repeated) parameters, keep them only once
+            own_vars = [v for v in samples_b.space if v not in params.space]
+            samples_b = samples_b[:, own_vars]
         return samples_a.join(samples_b)
 
 
